@@ -75,7 +75,9 @@ def run(F, res, tier):
     ac = F.fn("ide::ide::AnalysisHost::apply_change")
     res.ob("K2", "apply_change-exclusive", "AnalysisHost::apply_change takes &mut self (no snapshot can be taken concurrently through the host)",
            ac.d["inputs"][0].startswith("&mut "), where=ac.loc(), how=ac.d["inputs"][0], nontrivial=False)
-    rc = [b for b, t in ac.calls() if callee(t) == "ide::ide::AnalysisHost::request_cancellation"]
+    # cancellation = request_cancellation(), or its body written out: salsa's synthetic_write on the database
+    rc = [b for b, t in ac.calls() if callee(t) == "ide::ide::AnalysisHost::request_cancellation" or
+          (callee(t) or callee_def(t) or "").endswith("::synthetic_write")]
     ap = [b for b, t in ac.calls() if callee(t) == "ide::base::Change::apply"]
     res.ob("K2", "cancel-before-write", "apply_change requests cancellation before it writes the inputs",
            len(rc) == 1 and len(ap) == 1 and ac.dominates(rc[0], ap[0]), where=ac.loc(), how="request_cancellation %d, Change::apply %d" % (len(rc), len(ap)))
